@@ -417,39 +417,6 @@ func monthAbbreviation(p *load.Prog) (bool, string) {
 	return true, ""
 }
 
-// splitFirst: strings.Split(words, sep)[0] with a non-empty constant separator never yields an empty slice.
-func splitFirst(p *load.Prog) (bool, string) {
-	fn := p.Method(load.PkgRoot, "DateConstraint", "String")
-	if fn == nil {
-		return false, "DateConstraint.String not found"
-	}
-	n := 0
-	for _, b := range fn.Blocks {
-		for _, ins := range b.Instrs {
-			ia, ok := ins.(*ssa.IndexAddr)
-			if !ok {
-				continue
-			}
-			n++
-			c, ok := ia.X.(*ssa.Call)
-			if !ok || !su.CalleeIs(&c.Call, "strings", "Split") {
-				return false, "the indexed value is not the result of strings.Split"
-			}
-			sep, isK := su.ConstString(c.Call.Args[1])
-			if !isK || sep == "" {
-				return false, "strings.Split is called with an empty or computed separator (an empty separator splits \"\" into zero pieces)"
-			}
-			if k, isK := su.ConstInt(ia.Index); !isK || k != 0 {
-				return false, "an element other than the first is taken"
-			}
-		}
-	}
-	if n == 0 {
-		return false, "no index in DateConstraint.String"
-	}
-	return true, ""
-}
-
 // goSyntaxPrefix: s[25:len(s)-1] of fmt.Sprintf("%#v", options): the Go-syntax form of a struct value
 // starts with "<package>.<Type>{" and ends with "}"; the lower bound must not exceed that prefix.
 func goSyntaxPrefix(p *load.Prog) (bool, string) {
